@@ -1,14 +1,15 @@
 # orchestrator configuration of the C02 check (loaded by tools/props.py)
-from stack import FULL_STACK, FULL_DEPS
+from stack import FULL_STACK, FULL_DEPS, QUIC_STACK, QUIC_DEPS
 
 SPEC = dict(
     pkg="./harness/c02",
-    instrument=FULL_STACK,
-    deps=FULL_DEPS,
+    instrument=FULL_STACK + QUIC_STACK,
+    deps=FULL_DEPS + QUIC_DEPS,
     level="exploration",
     level_text=("seeded search over layers x write splits x read-buffer sequences x wire fragmentation x schedules of the real "
                 "Noise session, TLS conn, PSK conn (raw simnet pipe), swarm streams over yamux over {Noise, TLS} through the real "
-                "upgrader, and basic-host streams with the lazy multistream streamWrapper (two real nodes); every byte of every "
+                "upgrader, basic-host streams with the lazy multistream streamWrapper (two real nodes) over TCP+{Noise,TLS}+yamux AND over "
+                "QUIC (quic-go over a simulated UDP wire with loss, duplication, reordering and a datagram-rewriting adversary); every byte of every "
                 "(stream, direction, offset) is a keyed function, compared after every Read; a frame-aware man in the middle "
                 "(flip / drop / duplicate / swap / truncate one ciphertext frame) in the adversary stratum. Sampling, not proof."),
     level_note=("trusted: testing/synctest, simnet's TCP model (writes never block below 8 MiB, FIN after everything written), the "
@@ -17,13 +18,19 @@ SPEC = dict(
                 "accepts a FIN on a record boundary); after a read deadline expired on a reader only 'never wrong data, EOF only at the "
                 "real end' is demanded of it, and a reader of the bare Noise / PSK connection whose deadline expired in the middle of a "
                 "frame stops (observation probe, deadlines are outside the property's quantifier); (0, nil) reads are tolerated; an error wrapping io.EOF after the last byte counts as the end. "
-                "Not covered: tcpreuse sampledconn (internal package), QUIC/WebTransport/WebRTC/websocket transports, OS sockets."),
+                "Combinations covered: TCP x {Noise, TLS} x yamux (swarm and host streams), QUIC (host streams), the bare Noise / TLS / PSK "
+                "connections. Not covered: PSK underneath the upgrader (C04 runs it), tcpreuse sampledconn (internal package), a swarm-only "
+                "QUIC layer (streams are told apart by protocol id), WebTransport/WebRTC/websocket transports, OS sockets. In QUIC runs two "
+                "goroutines per run (crypto/tls's QUIC handshake goroutine calling back into instrumented code) yield without having been "
+                "started through an instrumented go statement; the self-test shows the runs are reproducible all the same."),
     technique=("deterministic simulation with fault injection: keyed-payload prefix/equality oracle over generated write/read-size "
                "sequences on five layers of the real stack, seeded lock-level scheduler, fragmenting simulated wire, frame-aware "
                "ciphertext adversary"),
     design_ref="DESIGN.md section 6 (C02)",
     quick_s=50, thorough_s=600,
-    rule=("one run = one tape: layer (noise | tls | pnet | swarm streams over yamux over noise|tls | basic-host streams over the same), "
+    rule=("one run = one tape: layer (noise | tls | pnet | swarm streams over yamux over noise|tls | basic-host streams over the same | "
+          "basic-host streams over QUIC; for QUIC the fault strata mean: latency/reordering, loss 3-30 % + duplication, datagram adversary "
+          "(flip/truncate/append/replay/swap/drop), all stopping 20 ms - 40 s into the data phase), "
           "fault stratum (clean | timing: link latency + reader deadlines with retry + writer pauses + late readers | stall of one raw "
           "endpoint | adversary: one ciphertext frame flipped/dropped/duplicated/swapped/stream truncated | peer-close: one side closes "
           "the connection when it is done while the other side's readers lag), link chunking (whole | fragment | 1-3 bytes), 1-4 streams, "
@@ -37,7 +44,8 @@ SPEC = dict(
             "write-of-2-or-more-noise-frames", "one-byte-reads-across-frame-edge", "data-read-after-own-half-close",
             "read-after-eof", "tamper-detected", "short-read", "zero-byte-read", "read-timeout", "lazy-multistream-stream",
             "write-reaching-yamux-window",
-            "layer-noise", "layer-tls", "layer-pnet", "layer-mux-noise", "layer-mux-tls", "layer-host-noise", "layer-host-tls",
+            "layer-noise", "layer-tls", "layer-pnet", "layer-mux-noise", "layer-mux-tls", "layer-host-noise", "layer-host-tls", "layer-host-quic",
+            "quic-wire-faults-survived-every-byte-delivered", "quic-reader-got-an-error-under-wire-faults", "connection-closed-abruptly",
             "stratum-clean", "stratum-timing", "stratum-stall", "stratum-adversary", "stratum-peer-close",
             "two-writers-on-one-connection", "zero-length-read", "zero-length-read-inside-a-frame",
             "final-bytes-and-eof-in-one-read", "session-closed-with-queued-plaintext", "session-closed-twice",
@@ -46,9 +54,11 @@ SPEC = dict(
     real=["ALL of the following run as tasks of the seeded scheduler (instrumented: every lock, channel operation, select, go statement is a scheduling point)",
           "noise.Transport / secureSession (handshake, Read, Write)", "libp2ptls.Transport + crypto/tls conn (stdlib, not instrumented)",
           "pnet pskConn", "upgrader (security + muxer negotiation), tcp transport dial path", "go-yamux session and streams + p2p/muxer/yamux glue",
+          "QUIC layer: p2p/transport/quic, quicreuse, quic-go v0.59 (instrumented) with crypto/tls underneath, crypto/rand pinned by simrand",
           "swarm conns and streams", "basic host NewStream / stream handlers / streamWrapper, go-multistream lazy client + server negotiation",
           "identify, eventbus, pstoremem (present, not judged)"],
-    stubs=["wire: simnet TCP model (fragmentation, latency, stall, man-in-the-middle hook)"],
+    stubs=["wire: simnet TCP model (fragmentation, latency, stall, man-in-the-middle hook)",
+           "wire: simnet UDP model (loss, duplication, latency per copy, datagram-rewriting adversary)"],
     assume=["virtual clock of testing/synctest", "simnet delivers what was written before a FIN/Close (TCP semantics)",
-            "three quiet virtual minutes exceed every timeout on these paths (hang oracle)"],
+            "three quiet virtual minutes exceed every timeout on these paths (hang oracle; for QUIC: idle timeout 30 s, keep-alive 15 s, PTO back-off)"],
 )
